@@ -258,7 +258,21 @@ impl<'a> Ctx<'a> {
         Ident::decl(name, d)
     }
 
+    /// A local spelled like this module accessor is in scope: `acc.x` in expression position
+    /// would be a field access on the local, so qualified value references must not use it.
+    fn accessor_shadowed(&self, acc: &str) -> bool {
+        self.scopes.iter().any(|sc| sc.iter().any(|l| l.name == acc))
+    }
+
     fn fresh_name(&mut self, taken: &[String]) -> Option<String> {
+        // one local in ten is spelled like a module accessor of this module (`import user`,
+        // then `fn f(user) { user.name }`): the local shadows the module from there on
+        if self.r.chance(1, 10) {
+            let accs: Vec<String> = self.sig().accessors.keys().filter(|a| !taken.iter().any(|t| t == *a)).cloned().collect();
+            if !accs.is_empty() {
+                return Some(accs[self.r.below(accs.len())].clone());
+            }
+        }
         let mut pool: Vec<&str> = VALUE_NAMES.iter().copied().filter(|n| !taken.iter().any(|t| t == n)).collect();
         if pool.is_empty() {
             return None;
@@ -361,6 +375,9 @@ impl<'a> Ctx<'a> {
             }
         }
         for (acc, mi) in &self.sig().accessors {
+            if self.accessor_shadowed(acc) {
+                continue;
+            }
             for a in self.sigs[*mi].adts.iter().filter(|a| a.public && !a.opaque) {
                 for v in &a.variants {
                     out.push((v.name.clone(), Some((acc.clone(), *mi)), v.clone(), a.decl));
@@ -622,7 +639,7 @@ impl<'a> Ctx<'a> {
             }
             11 | 12 => {
                 // qualified value m.f / m.c, maybe called
-                let accs: Vec<(String, usize)> = self.sig().accessors.iter().map(|(k, v)| (k.clone(), *v)).collect();
+                let accs: Vec<(String, usize)> = self.sig().accessors.iter().filter(|(k, _)| !self.accessor_shadowed(k)).map(|(k, v)| (k.clone(), *v)).collect();
                 if accs.is_empty() {
                     return self.var_use(site);
                 }
@@ -690,7 +707,12 @@ impl<'a> Ctx<'a> {
                 // (glas unifies distinct custom types silently), so the label is not judged
                 // here; well-typed field access is judged on the typed generator's programs.
                 let _ = fd;
-                Expr::Field(Box::new(Expr::Var(Ident::use_(n, Some(d), true, "field-base"))), Ident { text: l, bind: Bind::Plain, site: "field-access-untyped" })
+                // `x.label` where x is a local spelled like a module accessor: Gleam (and glas)
+                // take it as a field access if that type-checks and as a module access
+                // otherwise, so in scoped mode (types unknown) the base is soundness-only there;
+                // the typed generator judges it.
+                let ambiguous = self.sig().accessors.contains_key(&n);
+                Expr::Field(Box::new(Expr::Var(Ident::use_(n, Some(d), !ambiguous, if ambiguous { "field-base-spelled-like-module" } else { "field-base" }))), Ident { text: l, bind: Bind::Plain, site: "field-access-untyped" })
             }
             14 => Expr::Tuple((0..self.r.range(1, 3)).map(|_| self.gen_expr(depth - 1, "tuple-elem")).collect()),
             15 => {
